@@ -226,18 +226,20 @@ def run(chk, tier, seed):
     groups = {}; coarse = {}
     for c in cases:
         groups.setdefault(key_of(c), []).append(c)
-    per = 1 if tier == "quick" else 6
+    per = 1
     chosen = []
     for k in sorted(groups, key=str):
         g = groups[k]; rng.shuffle(g); chosen += g[:per]
-    if tier == "quick":                 # one case of every coarse class (policy x verdict x code x signature shape and calendar algorithm x extender x certificate), then a random fill
-        rng.shuffle(chosen)
-        first = []; rest = []
-        for c in chosen:
-            k = key_of(c)[:7]
-            if k in coarse: rest.append(c)
-            else: coarse[k] = 1; first.append(c)
-        chosen = first + rest[:max(0, 4500 - len(first))]
+    # one case of every coarse class first (quick: policy x verdict x code x signature shape and calendar algorithm x extender x certificate; thorough: also
+    # x publications-file source x user publication), then a random fill of the fine classes up to the budget (a verification costs ~40 ms)
+    depth, budget = (7, 4500) if tier == "quick" else (9, 45000)
+    rng.shuffle(chosen)
+    first = []; rest = []
+    for c in chosen:
+        k = key_of(c)[:depth]
+        if k in coarse: rest.append(c)
+        else: coarse[k] = 1; first.append(c)
+    chosen = first + rest[:max(0, budget - len(first))]
     W = World(vlib.scratch("c04_pki"))
     s = netsim.Session(exe)
     n = 0; skipped = 0; byres = {}
@@ -282,7 +284,7 @@ def run(chk, tier, seed):
             chk.violation("crash:verify:exit", "driver exited rc=%s (leak or sanitizer report)\n%s" % (rc, err[-2500:]), {})
     chk.sample(dict(kind="verdicts replayed", by_result=byres)); chk.sample(dict(kind="case", case=chosen[len(chosen) // 2]))
     chk.add(evaluations=n, distinct_nontrivial=n, model_cases=len(cases), case_classes=len(groups), unrealisable=skipped, exhaustive=False,
-            rule="TLC: all %d (policy, environment) pairs against 7 invariants. Replay: %d case(s) of every class (policy x verdict x code x signature shape x extender behaviour x certificate state "
+            rule="TLC: all %d (policy, environment) pairs against 7 invariants. Replay: %d case of every coarse class, then a random fill of the fine classes up to the tier budget (4 500 / 45 000); fine class = (policy x verdict x code x signature shape x extender behaviour x certificate state "
                  "x user publication x publications file content)" % (len(cases), per))
     chk.assumptions += ["the publications file is either handed over as the user's file, or fetched through the context's file:// publications URL and PKI-verified (trusted / untrusted by wrong CA, empty store or other constraint value); 'no file' means the download fails",
                         "deprecated algorithm = one SHA-1 left sibling in the signature's own / the extender's calendar chain, publication times after 2016-07-01; aggregation chains are SHA-256 throughout (their lifetime rules are C01's)",
